@@ -119,7 +119,7 @@ var propTable = map[string]*propSpec{
 	},
 	"C09": {
 		ID:    "C09",
-		Rules: []string{"R-HANDOFF", "R-LOCKSET", "R-GO", "R-KILL"},
+		Rules: []string{"R-HANDOFF", "R-LOCKSET", "R-GO", "R-KILL", "R-CLOSE"},
 		Explanation: "Decides the protocol-shape content of 'coroutines: one thread at a time, control always comes back, no goroutine left behind': " +
 			"(R-HANDOFF) after a hand-off a thread only blocks on its own channel or unlocks; (R-LOCKSET) thread status/caller/closeErr are written under the thread's mutex, each status constant only by the functions owning that transition, mutexes are taken receiver-first, no Lua code can run under a thread mutex, the finaliser pool's lists are touched only under its mutex, and Lua-callable functions pass their own thread as the caller of Resume/Close; " +
 			"(R-GO) the only go statement is Thread.Start's and its goroutine always ends through t.end; (R-KILL c) the chain forwarding a termination from a coroutine to its resumer is intact.",
